@@ -4,6 +4,8 @@ import PhyVerif.Spec.C11
 import PhyVerif.Model.C12
 import PhyVerif.Model.C12b
 import PhyVerif.Driver.C16
+import PhyVerif.Model.C11e
+import PhyVerif.Model.C12c
 namespace PhyVerif.Driver
 open Lean PhyVerif
 
@@ -13,8 +15,71 @@ def asPairN' (j : Json) : R (Nat × Nat) := do
   | [a, b] => pure (a, b)
   | _ => .error "pair expected"
 
+def asPairI'' (j : Json) : R (Int × Int) := do
+  let l ← asList asInt j
+  match l with
+  | [a, b] => pure (a, b)
+  | _ => .error "pair expected"
+
+/-- a file of the file-system model: {"k": kind, "v": value} -/
+def asMFile (j : Json) : R C11.File := do
+  let k ← getStr j "k"
+  let v ← fld j "v"
+  match k with
+  | "ints" => C11.File.ints <$> asList asInt v
+  | "nats" => C11.File.nats <$> asList asNat v
+  | "table" => C11.File.table <$> asList (asList asNat) v
+  | "pos" => C11.File.pos <$> asList asPairI'' v
+  | "tmpl" => C11.File.tmpl <$> asList (asList (asList asInt)) v
+  | "mat" => C11.File.mat <$> asList (asList asInt) v
+  | "tsv" => C11.File.tsv <$> asList asPairN' v
+  | "params" => do let p ← asPairN' v; pure (C11.File.params p.1 p.2)
+  | "labels" => C11.File.labels <$> asList asStr v
+  | _ => .error s!"unknown file kind {k}"
+
+def jMFile : C11.File → Json
+  | .ints v => Json.mkObj [("k", "ints"), ("v", jInts v)]
+  | .nats v => Json.mkObj [("k", "nats"), ("v", jNats v)]
+  | .table v => Json.mkObj [("k", "table"), ("v", jList jNats v)]
+  | .pos v => Json.mkObj [("k", "pos"), ("v", jList jPairI v)]
+  | .tmpl v => Json.mkObj [("k", "tmpl"), ("v", jList (jList jInts) v)]
+  | .mat v => Json.mkObj [("k", "mat"), ("v", jList jInts v)]
+  | .tsv v => Json.mkObj [("k", "tsv"), ("v", jList jPairN v)]
+  | .params r n => Json.mkObj [("k", "params"), ("v", jNats [r, n])]
+  | .labels l => Json.mkObj [("k", "labels"), ("v", jList Json.str l)]
+  | .computedInv wm => Json.mkObj [("k", "computed_inv"), ("v", jOpt (jList jInts) wm)]
+
+def jMErr : C11.MergeErr → Json
+  | .noProbes => Json.mkObj [("kind", "noProbes")]
+  | .notFound d n => Json.mkObj [("kind", "notFound"), ("dir", d), ("name", n)]
+  | .badFile d n => Json.mkObj [("kind", "badFile"), ("dir", d), ("name", n)]
+  | .zeroDim n => Json.mkObj [("kind", "zeroDim"), ("name", n)]
+  | .emptyMax n => Json.mkObj [("kind", "emptyMax"), ("name", n)]
+  | .shape n => Json.mkObj [("kind", "shape"), ("name", n)]
+
+def asMEntry (j : Json) : R (C11.Path × C11.File) := do
+  let d ← getStr j "dir"; let n ← getStr j "name"; let f ← fld j "file" >>= asMFile
+  pure ((d, n), f)
+
 def runC11 (op : String) (j : Json) : R Json := do
   match op with
+  | "merge_fs" =>
+    -- the whole `Merger(subdirs, out).merge()` on a file system: which files exist afterwards, with which
+    -- contents, which exception, and whether any path outside the output directory changed
+    let fs ← fld j "fs" >>= asList asMEntry
+    let subdirs ← fld j "subdirs" >>= asList asStr
+    let out ← getStr j "out"
+    let r := C11.merge fs subdirs out
+    let fs' := r.1.1
+    let dirs := (fs.map (·.1.1) ++ fs'.map (·.1.1)).eraseDups.filter (· != out)
+    let untouched := dirs.all fun d =>
+      let n0 := C11.FS.names fs d; let n1 := C11.FS.names fs' d
+      n0.all (n1.contains ·) && n1.all (n0.contains ·) && n0.all fun n => C11.FS.read fs (d, n) == C11.FS.read fs' (d, n)
+    pure (Json.mkObj [
+      ("error", jOpt jMErr r.2),
+      ("others_untouched", Json.bool untouched),
+      ("out_names", jList Json.str (C11.FS.names fs' out)),
+      ("out", Json.mkObj ((C11.FS.names fs' out).filterMap fun n => (C11.FS.read fs' (out, n)).map fun f => (n, jMFile f)))])
   | "merge_spikes" =>
     let times ← getIntss j "times"; let sc ← getNatss j "clusters"; let st ← getNatss j "templates"
     let counts ← getNats j "template_counts"
@@ -60,8 +125,13 @@ def runC12 (op : String) (j : Json) : R Json := do
     let tfInd ← fld j "tf_ind" >>= asList (asList (asList asNat))
     let toffs ← getNats j "template_offsets"
     let stl ← if hasFld j "spike_templates" then getNatss j "spike_templates" else pure []
-    let wm := ((ncs.zip toks).map fun p => mkSquare p.2 p.1)
-    let sim := ((nts.zip toks).map fun p => mkSquare p.2 p.1)
+    -- optional matrices: per probe present / absent; the inverse whitening tokens are the whitening tokens + 500000
+    let optional := fun (key : String) (ms : List (List (List Int))) => do
+      let present ← if hasFld j key then fld j key >>= asList asBool else pure (ms.map fun _ => true)
+      pure ((ms.zip present).map fun p => if p.2 then some p.1 else none)
+    let wm ← optional "wm_present" ((ncs.zip toks).map fun p => mkSquare p.2 p.1)
+    let wmi ← optional "wmi_present" ((ncs.zip toks).map fun p => (mkSquare p.2 p.1).map fun row => row.map (· + 500000))
+    let sim ← optional "sim_present" ((nts.zip toks).map fun p => mkSquare p.2 p.1)
     let params ← fld j "params" >>= asList asPairN
     pure (Json.mkObj [
       ("channel_map", jNats (C12.mergeChannelMaps maps)),
@@ -73,8 +143,9 @@ def runC12 (op : String) (j : Json) : R Json := do
       ("pc_ind", jList jNats (C12.mergePcInd maps pcInd)),
       ("tf_ind", jList jNats (if hasFld j "spike_templates" then C12.mergeTfInd stl nts tfInd else C12.shiftTables tfInd toffs)),
       ("template_offsets", jNats (C11.templateOffsets stl nts)),
-      ("whitening", jList jInts (C12.blockDiag wm)),
-      ("similar", jList jInts (C12.blockDiag sim)),
+      ("whitening", jOpt (jList jInts) (C12.mergeOptional wm)),
+      ("whitening_inv", jOpt (jList jInts) (C12.mergeOptional wmi)),
+      ("similar", jOpt (jList jInts) (C12.mergeOptional sim)),
       ("params", jOpt jPairN (C12.mergeParams params))])
   | _ => .error s!"C12: unknown op {op}"
 
